@@ -437,3 +437,59 @@ def deeponet_data_condition_pairs_function_i_with_location_j(S):
         return z3.If(dd >= 0, dd, -dd)
 
     S.forall("dist-i-j-compares-target-i-j-with-branch-function-i-at-trunk-location-j", dist, lambda q_: zreal(t.at(q_)) == want(q_))
+
+
+# ----------------------------------------------------------------------------- the loader wrappers
+PDL = "torchphysics.utils.data.dataloader.PointsDataLoader"
+DDL = "torchphysics.utils.data.deeponet_dataloader.DeepONetDataLoader"
+
+
+@scenario("C16", [PDL + ".__init__", DDL + ".__init__"], configs=["points", "deeponet-shared-trunk", "deeponet-trunk-per-function"])
+def loader_wrappers_forward_their_arguments_to_the_data_set(S):
+    """the DataLoader subclasses build the corresponding data set with the caller's batch sizes / shuffle / drop_last
+    flags and iterate it WITHOUT automatic batching or shuffling (batch_size=None, shuffle=False: the data set's own
+    batches, each once per pass, A5) -- the per-function trunk layout selects DeepONetDataset_Unique"""
+    I = S.I
+    if S.cfg == "points":
+        N, bs = S.int("N", 1), S.int("bs", 1)
+        px = S.new(POINTS, S.tensor("X", [N, 2]), S.new(R2, "x"))
+        pu = S.new(POINTS, S.tensor("U", [N, 1]), S.new(R1, "u"))
+        ld = S.new(PDL, (px, pu), bs, shuffle=False, drop_last=True)
+        ds = S.getattr(ld, "dataset")
+        S.ensure("data-set-is-a-points-data-set", I.isinstance_(ds, S.find(PD)))
+        S.ensure("batch-size-and-drop-last-forwarded", S.getattr(ds, "batch_size") is bs and S.getattr(ds, "drop_last") is True)
+        dp = S.getattr(ds, "data_points")
+        S.ensure("data-forwarded-unshuffled-in-order", len(dp) == 2 and dp[0] is px and dp[1] is pu)
+    else:
+        uniq = S.cfg == "deeponet-trunk-per-function"
+        Nb, Nt, bb, bt = S.int("Nb", 1), S.int("Nt", 1), S.int("bb", 1), S.int("bt", 1)
+        B = S.tensor("B", [Nb, 3, 1])
+        Tr = S.tensor("T", [Nb, Nt, 2] if uniq else [Nt, 2])
+        O = S.tensor("O", [Nb, Nt, 1])
+        ld = S.new(DDL, B, Tr, O, S.new(R1, "f"), S.new(R2, "x"), S.new(R1, "u"), bb, bt, shuffle_branch=False, shuffle_trunk=False)
+        ds = S.getattr(ld, "dataset")
+        S.ensure("layout-selects-the-data-set-class", I.isinstance_(ds, S.find(DU if uniq else DD)))
+        S.ensure("batch-sizes-forwarded", S.getattr(ds, "branch_batch_size") is bb and S.getattr(ds, "trunk_batch_size") is bt)
+        S.ensure("data-forwarded", S.getattr(ds, "branch_data_points") is B and S.getattr(ds, "trunk_data_points") is Tr and S.getattr(ds, "out_data_points") is O)
+    S.ensure("no-automatic-batching-or-shuffling-by-the-loader", S.getattr(ld, "batch_size") is None and ld.f.get("_tpv_shuffle") is False)
+
+
+@scenario("C16", [COND + ".forward"], configs=["two-batches-three-calls"], bounded="a loader with two batches and a history of three forward calls; batch contents symbolic")
+def data_condition_single_batch_mode_cycles_through_the_loader(S):
+    """DataCondition(use_full_dataset=False): successive forward calls use successive batches and start over after the
+    last one (each batch once per pass): calls 1, 2, 3 see batches 0, 1, 0"""
+    from tpv.absdom import AbstractModel
+    from tpv.tlib import Tensor
+
+    I = S.I
+    tx = I.binop(ast.Mult(), S.new(RN, "x", 2), S.new(RN, "t", 1))
+    model = AbstractModel(S, "net", tx, S.new(RN, "u", 1))
+    N0, N1 = S.int("N0", 1), S.int("N1", 1)
+    mk = lambda nm, n: (S.new(POINTS, S.tensor("X" + nm, [n, 3]), tx), S.new(POINTS, S.tensor("Y" + nm, [n, 1]), S.new(RN, "u", 1)))
+    b0, b1 = mk("0", N0), mk("1", N1)
+    cond = S.new(COND, model.obj, [b0, b1], 2)
+    for _ in range(3):
+        S.method(cond, "forward")
+    S.ensure("one-model-evaluation-per-call", len(model.calls) == 3)
+    if len(model.calls) == 3:
+        S.ensure("batches-0-1-then-0-again", model.calls[0]["points"] is b0[0] and model.calls[1]["points"] is b1[0] and model.calls[2]["points"] is b0[0])
